@@ -182,6 +182,8 @@ def run(chk):
                         v, d = PROVED, ""
                     elif has_top(tuple(rd)) or has_top(tuple(rs_)):
                         v, d = UNDECIDED, "abstract results contain top"
+                    elif not definite_diff(tuple(rd), tuple(rs_)):
+                        v, d = UNDECIDED, "results differ only where one side is an uninterpreted call: %s" % first_diff(rd, rs_)
                     else:
                         v, d = REFUTED, "Lut and StaticLut give different abstract results: %s" % first_diff(rd, rs_)
                 except Undecided as e:
@@ -194,7 +196,7 @@ def run(chk):
     for k in sorted(set(td) & set(ts), key=str):
         if not any(k[0].startswith(p_) for p_ in DIFF_TRAITS):
             continue
-        for n in ((0, 2, 5, 6, 7, 8) if chk.tier == "quick" else range(0, nmax + 1)):
+        for n in ((0, 2, 5, 6, 7, 8, 10) if chk.tier == "quick" else range(0, nmax + 1)):
             if k[0] == "std::default::Default" and n != 0:
                 continue
             key = "impl %s%s %s::%s n=%d" % (k[1], k[0], ",".join(k[2]), k[3], n)
@@ -234,6 +236,8 @@ def run(chk):
                     v, d = PROVED, ""
                 elif has_top(tuple(rd)) or has_top(tuple(rs_)):
                     v, d = UNDECIDED, "abstract results contain top"
+                elif not definite_diff(tuple(rd), tuple(rs_)):
+                    v, d = UNDECIDED, "results differ only where one side is an uninterpreted call: %s" % first_diff(rd, rs_)
                 else:
                     v, d = REFUTED, "Lut and StaticLut give different abstract results: %s" % first_diff(rd, rs_)
             except Undecided as e:
@@ -340,6 +344,26 @@ def strip_nv(rs, n):
             return tuple(walk(x) for x in c)
         return c
     return [walk(r) for r in rs]
+
+
+def _has_uf(x):
+    if isinstance(x, (tuple, list)):
+        if len(x) >= 2 and x[0] == "Opaque" and x[1] == "uf":
+            return True
+        return any(_has_uf(y) for y in x)
+    return False
+
+
+def definite_diff(a, b):
+    """is there a differing component in which no uninterpreted call takes part?  (an uninterpreted call on one
+    side against a modelled value on the other decides nothing)"""
+    if type(a) != type(b) or not isinstance(a, (tuple, list)):
+        return a != b and not _has_uf(a) and not _has_uf(b)
+    if len(a) != len(b):
+        return not _has_uf(a) and not _has_uf(b)
+    if len(a) >= 2 and a[0] == "Opaque" and (a[1] == "uf" or b[1] == "uf"):
+        return False
+    return any(definite_diff(x, y) for x, y in zip(a, b) if x != y)
 
 
 def first_diff(a, b, path="result"):
